@@ -111,10 +111,46 @@ def conforming_2d(p, t):
     return True
 
 
+def extra_meshes(rng):
+    """Thorough tier only: larger lattices, more local orders, random 3-D triangulations."""
+    out = []
+    p, t = U.tri_lattice(3, 2, [int(v) for v in rng.integers(0, 2, 6)])
+    out.append(('tri', 'MeshTri1', p, t))
+    p, t = U.quad_grid(3, 2)
+    out.append(('quad', 'MeshQuad1', p, U.apply_local_orders('quad', t, rng)))
+    p, t = U.quad_grid(2, 2, jiggle=[(4, 0.25, 0.25)])
+    out.append(('quad', 'MeshQuad1', p * 4, U.apply_local_orders('quad', t, rng)))
+    for dims in ((1, 1, 1), (2, 1, 1), (1, 2, 1)):
+        p, t = U.hex_grid(*dims)
+        out.append(('hex', 'MeshHex1', p, U.apply_local_orders('hex', t, rng)))
+    p, t = U.tet_cubes(2, 5)
+    out.append(('tet', 'MeshTet1', p, t))
+    for _ in range(2):
+        p, t = U.delaunay_int(3, int(rng.integers(5, 8)), 3, rng)
+        if 2 <= t.shape[1] <= 12:
+            out.append(('tet', 'MeshTet1', p, t))
+    p, t = U.line_points([0, 1, 2, 3, 5, 8])
+    perm = rng.permutation(p.shape[1])
+    p, t = U.renumber(p, t, perm)
+    out.append(('line', 'MeshLine1', p, t))
+    return out
+
+
 def generate(tier, seed):
     rng = np.random.default_rng(seed + 12)
+    recs = generate_round(tier, rng, initial_meshes(rng, tier))
+    if tier == 'thorough':
+        # more draws of tags / marked sets / kept cells on the same meshes, plus larger meshes
+        for _ in range(9):
+            recs += generate_round(tier, rng, initial_meshes(rng, tier))
+        for _ in range(3):
+            recs += generate_round(tier, rng, extra_meshes(rng))
+    return recs
+
+
+def generate_round(tier, rng, meshes):
     recs = []
-    for kind, cls, p, t in initial_meshes(rng, tier):
+    for kind, cls, p, t in meshes:
         nt = t.shape[1]
         three = kind in ('tet', 'hex')
         second = cls.endswith('2')
